@@ -27,7 +27,24 @@ def sites(prog, modules_prefix=("nessai.samplers", "nessai.proposal", "nessai.ex
                 elts = list(t.elts) if isinstance(t, ast.Tuple) else [t]
                 for i, e in enumerate(elts):
                     if isinstance(e, ast.Attribute) and e.attr == "log_q" and isinstance(e.value, ast.Attribute) and e.value.attr in STORE_ATTRS:
-                        out.append((f, st, src(e.value), st.value if isinstance(st.value, ast.Call) else None, i if isinstance(t, ast.Tuple) else None))
+                        val, idx = st.value, (i if isinstance(t, ast.Tuple) else None)
+                        # through a local bound exactly once, by a tuple unpacking of the producing call:
+                        # `_, log_q = p.compute_meta_proposal_samples(S.samples); S.log_q = log_q`
+                        if isinstance(val, ast.Name) and idx is None:
+                            binds = [(s2, j) for s2 in walk_no_nested(f.node) if isinstance(s2, ast.Assign) for t2 in s2.targets for j, e2 in enumerate(t2.elts if isinstance(t2, ast.Tuple) else [t2]) if isinstance(e2, ast.Name) and e2.id == val.id]
+                            if len(binds) > 1:
+                                # several bindings (the same helper inlined twice): the one just before this statement
+                                prev = None
+                                for owner in ast.walk(f.node):
+                                    for fld in ("body", "orelse", "finalbody"):
+                                        blk = getattr(owner, fld, None)
+                                        if isinstance(blk, list) and st in blk and blk.index(st) > 0:
+                                            prev = blk[blk.index(st) - 1]
+                                binds = [b for b in binds if b[0] is prev]
+                            if len(binds) == 1 and isinstance(binds[0][0].value, ast.Call):
+                                s2, j = binds[0]
+                                val, idx = s2.value, (j if isinstance(s2.targets[0], ast.Tuple) else None)
+                        out.append((f, st, src(e.value), val if isinstance(val, ast.Call) else None, idx))
     return out
 
 
